@@ -277,7 +277,7 @@ func runC05(c *Ctx) {
 		go func() {
 			defer lwg.Done()
 			t0 := time.Now()
-			runLong(c, sh, filepath.Join(tmp, "long"))
+			guarded(sh, "long-stream", func(s *shared, again string) { runLong(c, s, filepath.Join(tmp, "long"+again)) })
 			sh.mu.Lock()
 			sh.im.Extra["wall:long-stream"] = time.Since(t0).Round(100 * time.Millisecond).String()
 			sh.mu.Unlock()
@@ -286,9 +286,9 @@ func runC05(c *Ctx) {
 	wg.Add(2)
 	go func() {
 		defer wg.Done()
-		if only != "remote" {
+		if only != "remote" && only != "long" {
 			t0 := time.Now()
-			runLocal(c, sh, filepath.Join(tmp, "local"))
+			guarded(sh, "local", func(s *shared, again string) { runLocal(c, s, filepath.Join(tmp, "local"+again)) })
 			sh.mu.Lock()
 			sh.im.Extra["wall:local"] = time.Since(t0).Round(100 * time.Millisecond).String()
 			sh.mu.Unlock()
@@ -296,7 +296,7 @@ func runC05(c *Ctx) {
 	}()
 	go func() {
 		defer wg.Done()
-		if only != "local" {
+		if only != "local" && only != "long" {
 			runRemote(c, sh, filepath.Join(tmp, "remote"))
 		}
 	}()
